@@ -640,6 +640,7 @@ Proof. unfold validate_pp. destruct (get_pp t (r_view r)); [discriminate|reflexi
 Lemma handle_pp_own x r s b wm' sh' : TInv c x -> SInv c x -> step_sum (TMsg (MPP r s b) wm' sh') x (handle_pp c wm shut x r s b).
 Proof.
   intros TI SI. unfold handle_pp. destruct (validate_pp c (tc_t x) r s) eqn:Ev; cbn [negb]; [|apply step_sum_refl].
+  destruct (N.eqb (tc_v x) (r_view r)); cbn [negb]; [|apply step_sum_refl].
   destruct (ctx_ok _ _ _); cbn [negb]; [|apply step_sum_refl].
   destruct (validProposal _ _ _ _); cbn [negb]; [|apply step_sum_refl].
   apply process_pp_step; [exact TI|apply (si_me _ _ SI)|apply like_refl|apply validate_pp_none with s; exact Ev| |apply step_sum_refl].
@@ -1058,7 +1059,7 @@ Proof. intro I. unfold check_elected. destruct (N.leb _ _); [exact I|]. destruct
 Lemma ot_thandle x m : outs_typed x -> outs_typed (thandle c wm shut x m).
 Proof.
   intro I. destruct m; cbn [thandle].
-  - unfold handle_pp. destruct (negb _); [exact I|]. destruct (negb _); [exact I|]. destruct (negb _); [exact I|]. apply ot_process_pp; exact I.
+  - unfold handle_pp. destruct (negb _); [exact I|]. destruct (negb _); [exact I|]. destruct (negb _); [exact I|]. destruct (negb _); [exact I|]. apply ot_process_pp; exact I.
   - unfold handle_p. repeat (match goal with |- outs_typed (if ?b then _ else _) => destruct b; [exact I|] end). apply ot_check_prepared. crush.
   - unfold handle_c. repeat (match goal with |- outs_typed (if ?b then _ else _) => destruct b; [exact I|] end). apply ot_check_committed. crush.
   - unfold handle_vc. repeat (match goal with |- outs_typed (if ?b then _ else _) => destruct b; [exact I|] end).
@@ -1144,7 +1145,7 @@ Proof. intros Hl I. unfold check_elected. destruct (N.leb _ _); [exact I|]. dest
 Lemma ol_thandle x m : outs_lead cm me x -> outs_lead cm me (thandle c wm shut x m).
 Proof.
   intro I. destruct m; cbn [thandle].
-  - unfold handle_pp. destruct (negb _); [exact I|]. destruct (negb _); [exact I|]. destruct (negb _); [exact I|]. apply ol_process_pp; exact I.
+  - unfold handle_pp. destruct (negb _); [exact I|]. destruct (negb _); [exact I|]. destruct (negb _); [exact I|]. destruct (negb _); [exact I|]. apply ol_process_pp; exact I.
   - unfold handle_p. repeat (match goal with |- outs_lead _ _ (if ?b then _ else _) => destruct b; [exact I|] end). apply ol_check_prepared. lcrush.
   - unfold handle_c. repeat (match goal with |- outs_lead _ _ (if ?b then _ else _) => destruct b; [exact I|] end). apply ol_check_committed. lcrush.
   - unfold handle_vc. destruct (N.eqb_spec (leaderOf (t_cm (tc_t x)) (v_view v)) me) as [El|]; cbn [negb]; [|exact I].
